@@ -95,12 +95,14 @@ def chunk_obs(ch):
 
 
 def scenario(arg):
-    order, layouts, mid_super, rechunk, write, processor, target = arg
+    order, layouts, mid_super, rechunk, write, processor, target = arg[:7]
+    id_order_is_start_order = arg[7] if len(arg) > 7 else True
     d = tempfile.mkdtemp(prefix="verif_c14_")
     res = dict(arg=arg, err=None, obs=[], extra=[])
     try:
         # run ids in definition order `order`; start times by index in sorted order of id
-        run_layouts = {r: (SPACING * int(r), layouts[i % len(layouts)]) for i, r in enumerate(order)}
+        # start times increase with the run id, or (second family) decrease: the subruns are ordered by run start, not by name
+        run_layouts = {r: (SPACING * (int(r) if id_order_is_start_order else 9 - int(r)), layouts[i % len(layouts)]) for i, r in enumerate(order)}
         st, chunks_by_run = build(d, run_layouts, mid_super, rechunk, write)
         write_run_docs(st, run_layouts)
         with warnings.catch_warnings():
@@ -136,6 +138,23 @@ def scenario(arg):
                         st2.define_run("_sup", data=list(order))
                     res["obs"].append(("stored and re-read", dict(subs=subs, out=[dict(s=c["s"], e=c["e"], rows=c["rows"], runs=c["runs"])
                                                                                    for c in chunks2], redefined_gone=gone)))
+            # redefinition in the context that has already used the superrun (define_run accepts the name with or without the leading
+            # underscore): what it then delivers is the concatenation of the *new* subrun list, never the previous definition's data
+            if len(order) > 1:
+                name = "sup" if (len(order) + int(bool(mid_super)) + int(bool(write))) % 2 else "_sup"
+                new_order = list(order)[:-1]
+                st.define_run(name, data=new_order)
+                gone = (not st.is_stored("_sup", target)) if write else True
+                by_start2 = sorted(new_order, key=lambda r: run_layouts[r][0])
+                subs2 = [dict(run=r, chunks=[dict(s=c["s"], e=c["e"], rows=[[x[0], x[1]] for x in c["rows"]]) for c in chunks_by_run[r]])
+                         for r in by_start2]
+                exp2 = [x[2] for r in by_start2 for x in expected_rows(chunks_by_run[r], target)]
+                chunks3 = [chunk_obs(c) for c in st.get_iter("_sup", target, processor=processor, progress_bar=False)]
+                if [v for c in chunks3 for v in c["v"]] != exp2:
+                    res["extra"].append(f"after redefining the superrun as {new_order} (define_run({name!r})) the same context delivers payloads "
+                                        f"{[v for c in chunks3 for v in c['v']]}, the new definition's subruns give {exp2}")
+                res["obs"].append((f"after redefinition via define_run({name!r})",
+                                   dict(subs=subs2, out=[dict(s=c["s"], e=c["e"], rows=c["rows"], runs=c["runs"]) for c in chunks3], redefined_gone=gone)))
     except Exception as e:  # noqa
         import traceback
         res["err"] = f"{type(e).__name__}: {e}"[:300]
@@ -158,13 +177,16 @@ def run(chk):
                         for target in ("top", "mid") if mid_super else ("top",):
                             if quick and (li + len(order) + int(mid_super) + int(write)) % 2 == 1 and len(order) > 1:
                                 continue
-                            work.append((order, lay, mid_super, rechunk, write, processor, target))
+                            work.append((order, lay, mid_super, rechunk, write, processor, target, True))
+                            if len(order) > 1 and li < 2 and target == "top":
+                                work.append((order, lay, mid_super, rechunk, write, processor, target, False))
     res = V.pmap(scenario, work)
     obs, idx = [], []
     for i, rr in enumerate(res):
         chk.case(key=json.dumps(rr["arg"]), nontrivial=len(rr["arg"][0]) > 1)
         a = rr["arg"]
-        name = f"subruns={a[0]} layouts={a[1]} mid_allows_superrun={a[2]} rechunk={a[3]} write_superruns={a[4]} {a[5]} target={a[6]}"
+        name = (f"subruns={a[0]} layouts={a[1]} mid_allows_superrun={a[2]} rechunk={a[3]} write_superruns={a[4]} {a[5]} target={a[6]}"
+                + ("" if a[7] else " run-ids-in-reverse-start-order"))
         if rr["err"]:
             chk.violation(f"C14:raises:{rr['err'].split(':')[0]}:{json.dumps(a)}", f"{name}: raised {rr['err']}", dict(arg=a))
             continue
@@ -197,6 +219,6 @@ def run(chk):
 
 def replay(chk, path):
     a = json.load(open(path))["replay"]["arg"]
-    rr = scenario((tuple(a[0]), tuple(a[1]), a[2], a[3], a[4], a[5], a[6]))
+    rr = scenario((tuple(a[0]), tuple(a[1]), a[2], a[3], a[4], a[5], a[6], a[7] if len(a) > 7 else True))
     print(rr["err"], rr["extra"], rr["obs"][:1])
     return 1 if (rr["err"] or rr["extra"]) else 0
